@@ -493,6 +493,12 @@ func runC01(ctx *core.Ctx) {
 	}
 
 	only := os.Getenv("VERIF_C01_ONLY") // development aid: run one family of streams
+	if only == "" || only == "oracle" || only == "conc" {
+		// several loads overlapping in one fresh process (c01_conc.go); early, because a process-wide defect found here
+		// explains crashes everywhere else
+		c01Concurrent(ctx)
+		ctx.Wait()
+	}
 	if only == "" || only == "oracle" {
 		// the named reference-cycle inputs first: if a cycle stops being detected, the replay should be a compose
 		// file, and the engine stops feeding cases after a storm of crashes
